@@ -1,0 +1,52 @@
+//go:build verif
+
+package grpc
+
+// Contracts checked by /verif/goavc (comment-only file, built only with -tags verif).
+
+// documented table: temporary -> Unavailable(14), else timeout -> DeadlineExceeded(4), else fault -> Internal(13), else Unknown(2)
+//@ smt (define-fun grpcTable ((f Bool) (to Bool) (tmp Bool)) Int (ite tmp 14 (ite to 4 (ite f 13 2))))
+
+//@ func NewErrorResponse
+//@   property C18
+//@   requires err != nil
+//@   requires asSE(err) != 0 ==> allocated(ptr(*goa.ServiceError, asSE(err)))
+//@   requires !(typeIs(err, *goa.ServiceError) && asSE(err) == 0)
+//@   let se = ptr(*goa.ServiceError, asSE(err))
+//@   ensures* shape: result != nil && fresh(result)
+//@   ensures* service: asSE(err) != 0 ==> result.Name == old(se.Name) && result.Id == old(se.ID) && result.Msg == old(se.Message) && result.Timeout == old(se.Timeout) && result.Temporary == old(se.Temporary) && result.Fault == old(se.Fault)
+//@   ensures* fault: asSE(err) == 0 ==> result.Name == "fault" && result.Fault && !result.Timeout && !result.Temporary && result.Msg == errMsg(err)
+//@   modifies nothing
+
+//@ func NewServiceError
+//@   property C18
+//@   requires resp != nil
+//@   ensures* copy: result != nil && fresh(result) && result.Name == resp.Name && result.ID == resp.Id && result.Message == resp.Msg && result.Timeout == resp.Timeout && result.Temporary == resp.Temporary && result.Fault == resp.Fault
+//@   modifies nothing
+
+//@ func EncodeError
+//@   property C18
+//@   requires err != nil
+//@   requires asSE(err) != 0 ==> allocated(ptr(*goa.ServiceError, asSE(err)))
+//@   requires !(typeIs(err, *goa.ServiceError) && asSE(err) == 0)
+//@   requires isStatusErr(err) ==> select(stCode, errStatus(err)) != 0 && errStatus(err) != 0 && errStatus(err) <= alloc()
+//@   let se = ptr(*goa.ServiceError, asSE(err))
+//@   let st = errStatus(result)
+//@   split isStatusErr(err)
+//@   split asSE(err) != 0
+//@   let d0 = select(stDetail0, st)
+//@   ensures* status: result != nil && isStatusErr(result) && select(stCode, st) != 0
+//@   ensures* table: !isStatusErr(err) && asSE(err) != 0 ==> select(stCode, st) == grpcTable(old(se.Fault), old(se.Timeout), old(se.Temporary))
+//@   ensures* unknown: !isStatusErr(err) && asSE(err) == 0 ==> select(stCode, st) == 2
+//@   ensures* passthrough: isStatusErr(err) ==> select(stCode, st) == old(select(stCode, errStatus(err)))
+//@   ensures* detail: !isStatusErr(err) && select(stDetailN, st) > 0 && asSE(err) != 0 ==> typeIs(d0, *goapb.ErrorResponse) && d0.(*goapb.ErrorResponse).Name == old(se.Name) && d0.(*goapb.ErrorResponse).Id == old(se.ID) && d0.(*goapb.ErrorResponse).Msg == old(se.Message) && d0.(*goapb.ErrorResponse).Fault == old(se.Fault) && d0.(*goapb.ErrorResponse).Timeout == old(se.Timeout) && d0.(*goapb.ErrorResponse).Temporary == old(se.Temporary)
+
+//@ func DecodeError
+//@   property C18
+//@   requires err != nil ==> !isStatusErr(err) || (errStatus(err) != 0 && errStatus(err) <= alloc())
+//@   requires err != nil && isStatusErr(err) && select(stDetailN, errStatus(err)) > 0 ==> implements(select(stDetail0, errStatus(err)), proto.Message)
+//@   ensures* first: err != nil && isStatusErr(err) && select(stDetailN, errStatus(err)) > 0 ==> result == select(stDetail0, errStatus(err))
+//@   ensures* none: err != nil && (!isStatusErr(err) || select(stDetailN, errStatus(err)) == 0) ==> result == nil
+
+//@ lemma c18_grpc_table_total property C18: forall f Bool, to Bool, tmp Bool :: grpcTable(f, to, tmp) == 14 || grpcTable(f, to, tmp) == 4 || grpcTable(f, to, tmp) == 13 || grpcTable(f, to, tmp) == 2
+//@ lemma c18_grpc_never_ok property C18: forall f Bool, to Bool, tmp Bool :: grpcTable(f, to, tmp) != 0
